@@ -210,6 +210,18 @@ def tlc_parallel(jobs, max_parallel=None):
     return results
 
 
+def apalache(module_path, args, timeout=1800):
+    """apalache-mc check ...; returns (outcome, output) with outcome 'NoError' | 'Error' | None (tool failure)."""
+    out_dir = os.path.join(WORK, 'apalache-out')
+    cmd = ['timeout', str(timeout), 'apalache-mc', 'check', '--out-dir=' + out_dir] + args + [os.path.basename(module_path)]
+    t0 = time.time()
+    r = subprocess.run(cmd, cwd=os.path.dirname(module_path), stdout=subprocess.PIPE, stderr=subprocess.STDOUT, text=True)
+    m = re.search(r'The outcome is: (\w+)', r.stdout)
+    outcome = m.group(1) if m else None
+    log('[apalache] %s %s: %s %.1fs' % (os.path.basename(module_path), ' '.join(a for a in args if not a.startswith('--cinit')), outcome, time.time() - t0))
+    return outcome, r.stdout
+
+
 def tlc_tool_failure(res, what):
     """A TLC run that neither passed nor produced a verdict is a tool error."""
     tail = '\n'.join(res.out.splitlines()[-40:])
